@@ -22,6 +22,7 @@ func (fc *FnCtx) instr(in ssa.Instruction, idx int) {
 	case *ssa.UnOp:
 		fc.unop(x)
 	case *ssa.Call:
+		fc.callSiteClauses(x)
 		fc.doCall(x, x.Common(), x)
 		fc.recordCallRes(x)
 	case *ssa.ChangeInterface:
@@ -1083,4 +1084,43 @@ func (fc *FnCtx) arith(t types.Type, m string, x *ssa.BinOp) string {
 		return fmt.Sprintf("(- (mod (+ %s %s) %s) %s)", m, h, pow2s(64), h)
 	}
 	return wrap(t, m)
+}
+
+// callSiteClauses: `callsite "F" expr` obligations, checked in the state just before each call to F.
+func (fc *FnCtx) callSiteClauses(c *ssa.Call) {
+	if fc.con == nil || len(fc.con.CallSites) == 0 {
+		return
+	}
+	names := callName(c)
+	for i := range fc.con.CallSites {
+		cs := &fc.con.CallSites[i]
+		match := false
+		for _, n := range names {
+			if n == cs.Anchor {
+				match = true
+			}
+		}
+		if !match {
+			continue
+		}
+		if fc.callSiteSeen == nil {
+			fc.callSiteSeen = map[string]bool{}
+		}
+		fc.callSiteSeen[cs.Anchor] = true
+		base := fc.pointEnv(fc.curBlock)
+		args := c.Call.Args
+		env := *base
+		inner := base.lookup
+		env.lookup = func(name string) (Val, bool) {
+			if strings.HasPrefix(name, "arg") {
+				var k int
+				if _, err := fmt.Sscanf(name, "arg%d", &k); err == nil && k >= 0 && k < len(args) {
+					return fc.val(args[k]), true
+				}
+			}
+			return inner(name)
+		}
+		f := fc.evalBool(cs.C.E, &env)
+		fc.oblige("callsite", cs.C.Label, f, c.Pos(), &cs.C)
+	}
 }
